@@ -3390,7 +3390,30 @@ func (c *Ctx) MEMO(rule string) []report.Obligation {
 						if _, isConst := stripMI(mu.Value).(*ssa.Const); isConst {
 							continue // a set of visited keys
 						}
+						// a memo hands out what it finds: a lookup whose value is ignored is a set-if-absent
+						hitUsed := false
+						for _, r := range *lk.Referrers() {
+							if ex, isE := r.(*ssa.Extract); isE && ex.Index == 0 {
+								for _, u := range *ex.Referrers() {
+									if _, isDbg := u.(*ssa.DebugRef); !isDbg {
+										hitUsed = true
+									}
+								}
+							}
+						}
+						if !hitUsed {
+							continue
+						}
 						n++
+						// on a hit, what is handed out is what was stored - not the fact that something was
+						for _, r := range returnsOf(fn) {
+							for _, rv := range r.Results {
+								if ex, isE := rv.(*ssa.Extract); isE && ex.Tuple == ssa.Value(lk) && ex.Index == 1 {
+									out = append(out, bad(rule, c.P.FuncID(fn)+" :: memo on "+c.P.KeyTerm(lk.X, 3)+" returns what it stored", c.P.InstrPos(r),
+										"the comma-ok flag of the memo lookup is returned as a result: it says that the key was seen before, not what was found for it then (an unset variable looked up twice comes back as set)"))
+								}
+							}
+						}
 						keyDeps := map[ssa.Value]bool{}
 						c.rootsOf(lk.Index, keyDeps, map[ssa.Value]bool{}, 12)
 						c.rootsOf(lk.X, keyDeps, map[ssa.Value]bool{}, 12) // the holder of the table
@@ -3451,4 +3474,106 @@ func (c *Ctx) rootsOf(v ssa.Value, out, seen map[ssa.Value]bool, depth int) {
 			c.rootsOf(*op, out, seen, depth-1)
 		}
 	}
+}
+
+// SRCREWRITE (C18): quoting decides what a byte means, and quoting is only known to the scanner. Nothing rewrites
+// the text of an env file before the quote-aware scan sees it: in package dotenv no strings.ReplaceAll / Replace /
+// (*strings.Replacer).Replace / strings.Map / bytes.Replace* is applied to a value that is (a slice of) the source
+// parameter of the parsing functions. (Escapes are decoded by expandEscapes after the scanner isolated a quoted
+// value: rule ESC.) A line-ending normalisation applied up front turns the CR inside a quoted value into LF.
+func (c *Ctx) SRCREWRITE(rule string) []report.Obligation {
+	var out []report.Obligation
+	n := 0
+	for _, fn := range c.P.Funcs {
+		id := c.P.FuncID(fn)
+		if !strings.HasPrefix(id, "dotenv.") {
+			continue
+		}
+		// only functions that hand (part of) their text parameter to the statement scanner
+		if len(c.callsTo(fn, "dotenv.(*parser).parse")) == 0 && !strings.HasSuffix(id, ".parse") && len(c.callsTo(fn, "dotenv.(*parser).getStatementStart")) == 0 {
+			continue
+		}
+		var textParams []*ssa.Parameter
+		for _, pa := range fn.Params {
+			if isByteSeq(pa.Type()) {
+				textParams = append(textParams, pa)
+			}
+		}
+		for _, cs := range callSites(fn, func(com *ssa.CallCommon) bool {
+			cal := com.StaticCallee()
+			if cal == nil {
+				return false
+			}
+			switch calleeName(cal) {
+			case "strings.ReplaceAll", "strings.Replace", "strings.Map", "bytes.ReplaceAll", "bytes.Replace", "bytes.Map", "(*strings.Replacer).Replace":
+				return true
+			}
+			if c.P.InModule(cal) && cal.Blocks != nil {
+				// a helper of the package that does it
+				for _, b := range cal.Blocks {
+					for _, in := range b.Instrs {
+						if call, ok := in.(*ssa.Call); ok && call.Call.StaticCallee() != nil {
+							switch calleeName(call.Call.StaticCallee()) {
+							case "strings.ReplaceAll", "strings.Replace", "bytes.ReplaceAll", "bytes.Replace", "(*strings.Replacer).Replace":
+								return true
+							}
+						}
+					}
+				}
+			}
+			return false
+		}) {
+			for _, a := range cs.Common().Args {
+				base := a
+				for d := 0; d < 5; d++ {
+					switch x := base.(type) {
+					case *ssa.Slice:
+						base = x.X
+						continue
+					case *ssa.Convert:
+						base = x.X
+						continue
+					}
+					break
+				}
+				for _, pa := range textParams {
+					if base == ssa.Value(pa) {
+						n++
+						out = append(out, bad(rule, id+" :: the source is rewritten before it is scanned", c.P.InstrPos(cs),
+							"the text of the env file is rewritten as a whole before the quote-aware scanner runs: bytes inside quoted values are changed too (a CR in a multi-line quoted value becomes LF)"))
+					}
+				}
+			}
+		}
+	}
+	out = append(out, report.Obligation{Rule: rule, Key: "dotenv :: the scanner sees the source as written", Status: report.Discharged, Why: fmt.Sprintf("%d rewrites of the source found", n)})
+	return out
+}
+
+// KINDTEST (C12): "is this path a file or a directory" is asked with IsDir. A compose file can be a pipe or a
+// device (process substitution, /dev/stdin): FileMode.IsRegular answers no for those, and code that takes "not
+// regular" for "directory" uses the file itself as the base directory of its relative paths. The packages that
+// resolve paths (loader, paths, cli, types, dotenv) do not call IsRegular.
+func (c *Ctx) KINDTEST(rule string) []report.Obligation {
+	var out []report.Obligation
+	n := 0
+	for _, fn := range c.P.Funcs {
+		id := c.P.FuncID(fn)
+		in := false
+		for _, p := range []string{"loader.", "paths.", "cli.", "types.", "dotenv."} {
+			if strings.HasPrefix(id, p) {
+				in = true
+			}
+		}
+		if !in {
+			continue
+		}
+		for _, cs := range callSites(fn, func(com *ssa.CallCommon) bool { return strings.HasSuffix(staticName(com), "FileMode).IsRegular") }) {
+			n++
+			out = append(out, bad(rule, id+" :: file kind decided by IsRegular", c.P.InstrPos(cs),
+				"a path is classified with FileMode.IsRegular: a compose file that is a pipe or a device is neither regular nor a directory and falls on the wrong side, so relative paths are resolved against the file itself instead of its directory"))
+		}
+	}
+	out = append(out, report.Obligation{Rule: rule, Key: "path resolution :: files and directories told apart with IsDir", Status: report.Discharged, Why: fmt.Sprintf("%d IsRegular tests found", n)})
+	return out
 }
